@@ -50,7 +50,7 @@ def _u1(name, src, allfns, define, fns, pool, nev, unwind=0, timeout=1800, elt=1
                     bound=(("event streams whose event types and key scalars follow the well-formed sequence of one record (%d events) with arbitrary value scalars, a parse failure possible at every point;" if script else "event streams of at most %d events of any type (a parse failure possible at every point);") % n_ev) +
                           " scalar values from a pool of %d strings (every key the function compares against + sample values); lists hold at most %d elements" % (len(pool), cap),
                     extra_flags=["--nondet-static", "--unwind", str(unwind)] + (["--memory-leak-check"] if leak_on else []) + ["--unwindset", "vp_bytes.0:%d,%s.0:%d,%s.1:%d" % (elt + 1, fns[0], n_ev + 2, fns[0], n_ev + 2)])
-    deep = dict(mk(nev + 3, bool(leak)), timeout=6000) if (tier == "quick" and not script) else None
+    deep = dict(mk(nev if leak == "deep" else nev + 3, bool(leak)), timeout=6000) if (tier == "quick" and not script) else None   # heavy units: same stream length + leak check
     return Unit(name="C13.parse_" + name, src=src, functions=fns, props=kw.pop("props", ["C13", "C14"]), no_dfcc=True, kind="bounded",
                 remove_bodies=[f for f in allfns if f not in fns and f not in keep], stub_srcs=["units/C13/parser_stubs.c"], covers=covers, min_obligations=10, timeout=timeout, tier=tier, deep=deep,
                 stubbed_contracts=["libyaml event API (units/C13/parser_model.h)", "strtol (stubs/vp_strtol.h)", "GLib GString/GArray (stubs/vp_glib.h)"], **mk(nev, leak is True), **kw)
